@@ -50,7 +50,7 @@ Urls(t) == {h \o p : h \in Hosts(t), p \in Paths(t)}
 Pats(t) ==
     {at, at \o P_p, at \o P_star, at \o P_p \o P_star, <<"*", ".">> \o at, <<"*", ".", "t">> \o P_p,
      at \o <<"/", "*">> \o P_q, https \o at \o P_star, https \o at \o P_p,
-     <<"^", "a", "\\", ".", "t", "/", "p", "$">>, <<"[">> \o at}
+     <<"^", "a", "\\", ".", "t", "/", "p", "$">>, <<"[">> \o at, https \o wat \o P_star}
     \cup (IF t = "large"
           THEN {AT \o P_P, http \o at \o P_p, wat \o P_p, <<"*">>, <<"^", "a", "\\", ".", "t", "/", ".", "*", "$">>,
                 <<"a", "\\", ".", "t">> \o P_p, bt, at \o P_q \o P_star, <<"^">> \o at \o <<"$">>}
